@@ -179,8 +179,10 @@ func RunHarness(p *Program, cfg Config, name string) (*Result, error) {
 			}
 			defer s.Close()
 			if cfg.SolverLog != "" && id == 0 {
-				f, _ := os.Create(cfg.SolverLog)
+				// one transcript for all harnesses of the run: each harness's solver starts with (reset)
+				f, _ := os.OpenFile(cfg.SolverLog, os.O_CREATE|os.O_WRONLY|os.O_APPEND, 0o644)
 				if f != nil {
+					f.WriteString("(reset)\n")
 					s.LogW = f
 					defer f.Close()
 				}
